@@ -766,10 +766,16 @@ def validate_templates(cpu, ctx, tmpls, out, include):
     if a.run.timed_out or a.run.san:
         return []
     bad = set()
-    for m in re.finditer(r'^> > > val\.asm\((\d+)\)(?::\d+)?: (?:error|fatal error)', a.run.text(), re.M):
+    for m in re.finditer(r'^> > > val\.asm\((\d+)\)(?::\d+)?: (?:error|fatal error)([^\n]*)', a.run.text(), re.M):
         k = lineof.get(int(m.group(1)))
         if k is not None:
             bad.add(k)
+            # a template is a line dasl printed.  Whatever the bytes were, a number in it has to be written the way asl reads numbers:
+            # 'symbol undefined' for a token that is a hexadecimal constant without its leading digit is dasl's fault, not the bytes'
+            hexish = [t for t in re.findall(r'(?<![\w$])[A-Fa-f][0-9A-Fa-f]*[hH](?!\w)', tmpls[k][1].replace('{T}', ''))]
+            if '#1010' in m.group(2) and hexish:
+                out.violate('reasm:%s:hex-constant-without-leading-digit' % cpu,
+                            "%s: dasl printed '%s'; asl reads '%s' as a symbol (a hexadecimal constant has to start with a digit): error 1010" % (cpu, tmpls[k][1].replace('\t', ' '), hexish[0]))
     if a.rc not in (0, 2):
         return []
     if a.rc == 2 and not bad:
